@@ -80,5 +80,47 @@ def build_get(fns):
     return [sc]
 
 
-SMT = [Q("c12_get_verify_before_use", "get: checksum before use, verified flag only after an equal checksum, mismatch -> removal", "chunk_cache", build_get,
+def build_put_write(fns):
+    """put_impl: an item is committed as verified only after its file was written through SafeFileCreator in this very
+    call; get_range_from_cache_file reads the slice with an exact-length read."""
+    g = modeb.CFG(mir.find_fn(fns, r"disk::<impl at [^>]*>::put_impl$"))
+    cm = g.blocks_calling(r"VerificationCell::<.*>::new_verified$")
+    nw = g.blocks_calling(r"SafeFileCreator::new")
+    wr = g.blocks_calling(r"as std::io::Write>::write_all$|as Write>::write_all$")
+    if not (cm and nw and wr):
+        raise LookupError("put_impl shape not recognised (commit=%s new=%s write=%s)" % (cm, nw, wr))
+    sc = smt.Script("c12_put_writes_before_commit")
+    modeb.no_path_query(g, sc, "put: the item is committed as verified only after its file was created in this call", [g.entry], cm, nw)
+    modeb.no_path_query(g, sc, "put: the item is committed as verified only after its bytes were written in this call", [g.entry], cm, wr)
+    g2 = modeb.CFG(mir.find_fn(fns, r"get_range_from_cache_file$"))
+    rx = g2.blocks_calling(r"read_exact$")
+    oks = [b for b in g2.nodes if any(re.search(r"= (std::result::)?Result::<.*>::Ok\(|CacheRange \{", st) for st in g2.fn.blocks[b][0])]
+    if not oks:
+        raise LookupError("get_range_from_cache_file: result construction not found")
+    modeb.no_path_query(g2, sc, "get: a range is returned only after an exact-length read of its bytes", [g2.entry], oks, rx)
+    modeb.no_path_query(g2, sc, "witness: result reachable", [g2.entry], oks, [], expect="sat", kind="witness")
+    return [sc]
+
+
+def _native(testfn):
+    def run(model, fnd, prop):
+        env = base_env()
+        env["CARGO_TARGET_DIR"] = os.path.join(BUILD, "replay_target")
+        rc, out = sh(["cargo", "test", "--offline", "--test", "c12_damaged_and_planted_items", "--", testfn], cwd=os.path.join(VERIF, "replay"), env=env, timeout=2400,
+                     log=os.path.join(LOGS, "replay_c12_%s.log" % testfn))
+        path = os.path.join(VERIF, "replay", "tests", "c12_damaged_and_planted_items.rs")
+        if "test result: FAILED" in out:
+            m = re.search(r"C12 violated: [^\n]*", out)
+            return True, path, m.group(0)[:240] if m else "native replay fails"
+        if re.search(r"test result: ok. [1-9]\d* passed", out):
+            return False, path, "native replay %s passes" % testfn
+        return None, path, "native replay inconclusive (rc=%s)" % rc
+    return run
+
+
+SMT = [Q("c12_put_writes_before_commit", "put writes the file it commits; range reads are exact", "chunk_cache", build_put_write,
+         functions=["chunk_cache::disk::DiskCache::put_impl", "chunk_cache::disk::get_range_from_cache_file"], bounds="all CFG paths", solvers=("z3", "cvc5-bv"),
+         replay=lambda m, f, p: (_native("reput_after_untracked_damage_returns_put_data") if "put:" in f.site else _native("planted_short_item_is_not_a_hit"))(m, f, p)),
+       Q("c12_get_verify_before_use", "get: checksum before use, verified flag only after an equal checksum, mismatch -> removal", "chunk_cache", build_get,
          functions=["chunk_cache::disk::DiskCache::get_impl"], bounds="all CFG paths", solvers=("z3", "cvc5-bv"))]
+
